@@ -84,6 +84,31 @@ CHECKS = {
              "agreement of the tool's accounting with the independent cost model.",
         note="Trusted: vlib.pysym, vlib.cost. Only the first clause has a semantic variable for a solver; the rest is "
              "exhaustive enumeration of small finite domains plus translation validation on pipeline outputs."),
+    "C09": dict(
+        level="other", design="5/C09", engine="pysym on id_to_asm_bytecode + independent reader on whole documents",
+        technique="symbolic execution (AST) of the id -> assembly item conversion with a symbolic operand; translation "
+                  "validation of whole emitted documents by an independent reader",
+        text="id_to_asm_bytecode is executed from its source for every instruction kind with the operand value symbolic: on "
+             "every path the emitted item must carry the canonical hexadecimal (PUSH, data, immutable) or decimal (tag, "
+             "sub-assembly, library) rendering of exactly the specified number. Shipped documents are optimized by the real "
+             "tool under 3 (quick) / 6 (thorough) option sets and compared with the input by an independent JSON reader "
+             "(contracts, version, auxdata, data, source lists, every non-optimizable item with all fields, well-formedness "
+             "and provenance of every emitted item, re-read by the tool's own parser).",
+        note="The document part is concrete validation on shipped inputs, not a solver verdict; the rebuild lemmas over all "
+             "small block layouts are decided in C14. Pseudo-push operands are compared numerically."),
+    "C14": dict(
+        level="other", design="5/C14", engine="pysym on split_by_numbers + bounded-exhaustive class sequences through the real front-end",
+        technique="symbolic execution (AST -> z3) of the partition heuristic over symbolic store positions; bounded-"
+                  "exhaustive enumeration of block layouts through the real splitter and rebuild code",
+        text="split_by_numbers runs symbolically on a strictly increasing list of up to 4 (quick) / 5 (thorough) symbolic store "
+             "positions below 64: z3 decides on every path that the cut points are store positions, increasing, ending at "
+             "the last store and greedy w.r.t. max_bound. All opcode-class sequences of length <= 3 (quick) / 4 (thorough) "
+             "with and without tag/jump frame, plus long blocks around the threshold with enumerated store placements, go "
+             "through the real front-end under the three policies (rules on/off): partition with shared split instruction, "
+             "key/original_instrs correspondence, stack-height chaining (independent arity table), rebuild identity and "
+             "single-segment replacement are checked on each.",
+        note="The layout family is enumerated exhaustively (syntactic bound); only the heuristic has numeric inputs for the "
+             "solver. Layouts outside the family are outside the claim."),
     "C11": dict(
         level="translation_validation", design="5/C11", engine="E1 EVM-SMT on replayed logs + fresh-process round trip",
         technique="bounded-exhaustive tamper space; every log the real replay accepts is decided by SMT block equivalence",
